@@ -414,6 +414,11 @@ def dispatch (st : DState) (fs : List String) : DState × String :=
     match p.toNat?, decOptInt e, decOptStr n with
     | some p, some e, some n => let (a, o) := AR.addChildNamed st.ar p e n; ({ st with ar := a }, encOut o)
     | _, _, _ => bad
+  | ["ar.setname", x, n] => match x.toNat?, decOptStr n with
+    | some x, some n =>
+      -- in-place edit of the payload through `get_mut` (refused for a removed or unknown id)
+      if AR.isLive st.ar x then ({ st with ar := AR.setName st.ar x n }, "ok") else (st, "err NodeNotFound")
+    | _, _ => bad
   | ["ar.prune", x] => match x.toNat? with
     | some x => let (a, o) := AR.prune st.ar x; ({ st with ar := a }, encOut o)
     | none => bad
